@@ -29,8 +29,8 @@ func (h *NFSProcedureHandler) handleMountCall(call *RPCCall, body io.Reader, rep
 
 	case 1: // MNT
 		// Apply rate limiting for mount operations
-		if h.server.handler.rateLimiter != nil && h.server.handler.policy.Load().EnableRateLimiting {
-			if !h.server.handler.rateLimiter.AllowOperation(authCtx.ClientIP, OpTypeMount) {
+		if h.server.handler.rateLimiter.Load() != nil && h.server.handler.policy.Load().EnableRateLimiting {
+			if !h.server.handler.rateLimiter.Load().AllowOperation(authCtx.ClientIP, OpTypeMount) {
 				var buf bytes.Buffer
 				xdrEncodeUint32(&buf, 10006) // MNT3ERR_SERVERFAULT - server is busy
 				reply.Data = buf.Bytes()
